@@ -79,4 +79,23 @@ theorem alloc_reuses (a : Alloc) : (a.free ≠ [] → a.alloc.2.len = a.len ∧ 
     | cons x rest => simp
   · intro h; simp [h]
 
+/-- the introspection calls agree with the structure: on the arena view of every valid state
+    `len`, `leaf_count`, `count_nodes_in_tree`, `leaf_sizes`, the collected leaf ids and `is_leaf_root`
+    are the corresponding functions of the tree -/
+theorem introspection_agrees (s : RState K V) (hs : SInv s) (hsm : Small s) :
+    (view s).len = .ok (abs s).length ∧
+    (view s).leafCount = .ok (leaves s.height s.root).length ∧
+    (view s).countNodes = .ok ((leaves s.height s.root).length, (bids s.height s.root).length) ∧
+    (view s).leafSizes = .ok ((leaves s.height s.root).map (fun l => l.keys.length)) ∧
+    (view s).leafIds = .ok ((leaves s.height s.root).map (·.id)) ∧
+    (view s).isLeafRoot = decide (s.height = 0) :=
+  ⟨view_len s hs hsm, view_leafCount s hs hsm, view_countNodes s hs hsm, view_leafSizes s hs hsm, view_leafIds s hs hsm,
+   view_isLeafRoot s⟩
+
+/-- … and with the arenas: the node counts of the traversal are the allocated counts of the two arenas -/
+theorem count_nodes_eq_allocated (s : RState K V) (hs : SInv s) (hsm : Small s) :
+    (view s).countNodes = .ok ((view s).leaves.len, (view s).branches.len) := by
+  obtain ⟨_, _, h1, h2⟩ := view_arenas s hs hsm
+  rw [view_countNodes s hs hsm, h1, h2]
+
 end BPT.Props.C06
